@@ -42,7 +42,7 @@ CONSTANTS MaxSeq,      \* number of requests
 
 AllClasses == {"obsTextHeader", "repeatedHeaders", "longUrl", "utf16OddReply", "longNonAsciiErrorReply", "wrongContentType", "overstatedLength",
             "multibyteCmdline", "multibyteUserName", "clientAbandons", "requesterCancelled", "eventQueueSaturated",
-            "keyKeeperNotified", "hostOutage", "malformedEscape", "descriptorExhaustion", "targetForms", "connectRefusedByHost", "connectAcceptedByHost", "danglingRuleNames", "plain"}
+            "keyKeeperNotified", "hostOutage", "silentHost", "malformedEscape", "descriptorExhaustion", "targetForms", "connectRefusedByHost", "connectAcceptedByHost", "danglingRuleNames", "plain"}
 
 VARIABLES listener, tasks, req, evq, answered, hist
 svars == <<listener, tasks, req, evq, answered, hist>>
